@@ -43,6 +43,12 @@ func (c *chooser) Choose(n int, preempt bool, kind string) int {
 	} else if c.e.StateKey != nil {
 		// beyond the replayed prefix: prune states already expanded
 		k := c.e.StateKey()
+		// A "pool"/"select" question is asked in the middle of an operation, right after a
+		// "sched" question in the very same state: the kind of question is part of the key,
+		// otherwise the second question would look like an already expanded state.
+		for _, ch := range kind {
+			k = (k ^ uint64(ch)) * 1099511628211
+		}
 		if c.e.visited[k] {
 			panic(vsched.Abort{Reason: "state already expanded"})
 		}
